@@ -862,6 +862,11 @@ class Exec:
         s2 = st.copy(); s2.assume(z3.Not(c))
         a = self.eval(node.body, s1)
         b = self.eval(node.orelse, s2)
+        if isinstance(a, Arr) and isinstance(b, Arr):
+            if a.dtype != b.dtype or a.ndim != b.ndim or a.view is not None or b.view is not None:
+                raise Unsupported("conditional expression over incompatible arrays")
+            self.same_shape(st, a, b, node)
+            return self.new_array(st, a.shape, a.dtype, z3.If(zbool(c), st.heap[a.oid], st.heap[b.oid]), "choice")
         return self.ite(c, a, b)
 
     def ite(self, c, a, b):
@@ -922,6 +927,13 @@ class Exec:
             lo = self.binop(ast.Add(), n, lo, st)
         if isinstance(hi, int) and hi < 0:
             hi = self.binop(ast.Add(), n, hi, st)
+        if self.ctx.options.get("slice_clamp") and (z3.is_expr(lo) or z3.is_expr(hi)) and (sl.lower is not None or sl.upper is not None):
+            # numpy semantics: indices are clamped to [0, n]; an empty window when hi < lo
+            zn, zl, zh = zint(n), zint(lo), zint(hi)
+            zl = z3.If(zl < 0, z3.If(zl + zn < 0, z3.IntVal(0), zl + zn), z3.If(zl > zn, zn, zl))
+            zh = z3.If(zh < 0, z3.If(zh + zn < 0, z3.IntVal(0), zh + zn), z3.If(zh > zn, zn, zh))
+            zh = z3.If(zh < zl, zl, zh)
+            return zl, zh, zh - zl
         symbolic = not (isinstance(lo, int) and (sl.upper is None or isinstance(hi, int) and isinstance(n, int)))
         if not self.spec_mode and (z3.is_expr(lo) or (sl.upper is not None and z3.is_expr(hi))) and (sl.lower is not None or sl.upper is not None):
             # numpy clamps; we demand the window to be inside (reported as 'slice' obligation)
@@ -1062,7 +1074,10 @@ class Exec:
 
     def s_Assign(self, s, st):
         if len(s.targets) != 1:
-            raise Unsupported("chained assignment")
+            v = self.eval(s.value, st)
+            for t in s.targets:
+                self.assign(t, v, st, s)
+            return [(st, Outcome(NORMAL))]
         tgt = s.targets[0]
         if isinstance(tgt, ast.Tuple) and isinstance(s.value, ast.Tuple) and len(tgt.elts) == len(s.value.elts):
             vals = [self.eval(e, st) for e in s.value.elts]
